@@ -707,6 +707,11 @@ Section Names.
 End Names.
 
 (** ---- 7. the weak consequence of any-fit (C09): fewer than twice the optimum ---- *)
+Lemma pk_zsum_nil : zsum [] = 0.
+Proof. reflexivity. Qed.
+Lemma pk_zsum_cons x l : zsum (x :: l) = x + zsum l.
+Proof. reflexivity. Qed.
+
 Section LoadsTotal.
   Notation lstep := (fun (s : list Z) (p : Z * nat) => update (snd p) (fun x => x + fst p) s).
 
@@ -716,7 +721,7 @@ Section LoadsTotal.
     length (fold_left lstep (combine vs asg) s) = length s.
   Proof.
     induction vs as [|v vs IH]; intros asg s Hlen Hasg.
-    - cbn [combine fold_left zsum fold_right]. split; [lia|reflexivity].
+    - cbn [combine fold_left]. rewrite pk_zsum_nil. split; [lia|reflexivity].
     - destruct asg as [|i asg]; [discriminate Hlen|]. cbn [length] in Hlen.
       inversion Hasg as [|j l Hi Hrest]; subst.
       cbn [combine fold_left snd fst].
@@ -724,7 +729,7 @@ Section LoadsTotal.
       + lia.
       + rewrite update_length. exact Hrest.
       + rewrite E1, E2, update_length. rewrite zsum_update by exact Hi.
-        cbn [zsum fold_right]. split; [lia|reflexivity].
+        rewrite pk_zsum_cons. split; [lia|reflexivity].
   Qed.
 
   Lemma loads_total k vs asg : length asg = length vs -> valid_asg k asg ->
@@ -739,8 +744,8 @@ Section LoadsTotal.
 
   Lemma zsum_le_cap C s : Forall (fun x => x <= C) s -> zsum s <= Z.of_nat (length s) * C.
   Proof.
-    induction 1 as [|x l Hx Hl IH]; [cbn; lia|].
-    cbn [zsum fold_right length]. fold (zsum l). rewrite Nat2Z.inj_succ. lia.
+    induction 1 as [|x l Hx Hl IH]; [rewrite pk_zsum_nil; cbn [length Z.of_nat]; lia|].
+    rewrite pk_zsum_cons. cbn [length]. rewrite Nat2Z.inj_succ. lia.
   Qed.
 
   Lemma packable_total C vs n : Packable C vs n -> zsum vs <= Z.of_nat n * C.
@@ -765,10 +770,10 @@ Section AnyFitBound.
     wf_bin valueof bn -> Forall (fun x => 0 <= valueof x) (snd bn) -> snd bn = y :: l ->
     valueof y <= fst bn.
   Proof.
-    unfold wf_bin. intros Hw Hnn E. rewrite E in *. cbn [map zsum fold_right] in Hw.
+    unfold wf_bin. intros Hw Hnn E. rewrite E in *. cbn [map] in Hw. rewrite pk_zsum_cons in Hw.
     inversion Hnn as [|z l' Hy Hl]; subst.
     assert (0 <= zsum (map valueof l)) by (apply zsum_nonneg; rewrite Forall_map; exact Hl).
-    unfold zsum in *. lia.
+    lia.
   Qed.
 
   Lemma sums_nonneg_total (b : bins A) :
@@ -795,7 +800,7 @@ Section AnyFitBound.
       { unfold later_ok in Hc. destruct (snd c) as [|y l] eqn:E; [contradiction|].
         pose proof (wf_bin_head_le c y l Hwc) as Hy. rewrite E in Hy. specialize (Hy Hnc eq_refl). lia. }
       assert (Hrest : (C + 1) * Z.of_nat k <= zsum (sums t)) by (apply IH; auto; lia).
-      unfold sums in *. cbn [map zsum fold_right]. fold (zsum (map fst t)).
+      unfold sums in *. cbn [map]. rewrite !pk_zsum_cons.
       rewrite Nat2Z.inj_succ. lia.
   Qed.
 
@@ -820,7 +825,7 @@ Section AnyFitBound.
     pose proof (packable_total C vs n Hpack) as H2.
     rewrite (wf_total valueof b Hw), (zsum_perm _ _ Hp) in H1.
     assert (n = 0)%nat by lia. subst n.
-    apply packable_zero in Hpack. subst vs. apply Permutation_nil in Hp.
+    apply packable_zero in Hpack. subst vs. apply Permutation_sym, Permutation_nil in Hp.
     apply map_eq_nil in Hp. exact (anyfit_two_contents C b Ha Hlen Hp).
   Qed.
 
@@ -863,3 +868,48 @@ Section AnyFitBound.
     (length b <= 2 * n - 1)%nat.
   Proof. intros Hne Hnn H. apply Inv_lt_2n; auto. apply bfd_Inv; auto. Qed.
 End AnyFitBound.
+
+Print Assumptions ff_error_iff.
+Print Assumptions ff_error_kind.
+Print Assumptions ff_error_iff_gen.
+Print Assumptions ff_error_kind_gen.
+Print Assumptions ff_packing.
+Print Assumptions ff_nonempty.
+Print Assumptions ff_anyfit.
+Print Assumptions ff_erase.
+Print Assumptions ff_names.
+Print Assumptions ff_lt_2n.
+Print Assumptions ffd_error_iff.
+Print Assumptions ffd_error_kind.
+Print Assumptions ffd_error_iff_gen.
+Print Assumptions ffd_error_kind_gen.
+Print Assumptions ffd_packing.
+Print Assumptions ffd_nonempty.
+Print Assumptions ffd_anyfit.
+Print Assumptions ffd_erase.
+Print Assumptions ffd_names.
+Print Assumptions ffd_lt_2n.
+Print Assumptions bf_error_iff.
+Print Assumptions bf_error_kind.
+Print Assumptions bf_error_iff_gen.
+Print Assumptions bf_error_kind_gen.
+Print Assumptions bf_packing.
+Print Assumptions bf_nonempty.
+Print Assumptions bf_anyfit.
+Print Assumptions bf_erase.
+Print Assumptions bf_names.
+Print Assumptions bf_lt_2n.
+Print Assumptions bfd_error_iff.
+Print Assumptions bfd_error_kind.
+Print Assumptions bfd_error_iff_gen.
+Print Assumptions bfd_error_kind_gen.
+Print Assumptions bfd_packing.
+Print Assumptions bfd_nonempty.
+Print Assumptions bfd_anyfit.
+Print Assumptions bfd_erase.
+Print Assumptions bfd_names.
+Print Assumptions bfd_lt_2n.
+Print Assumptions anyfit_lt_2n.
+Print Assumptions anyfit_lt_2n_perm.
+Print Assumptions packing_empty_negative_capacity.
+Print Assumptions bf_negative_value_leaves_empty_bin.
